@@ -123,7 +123,7 @@ func dischargeOnce(o *Obl, cfg *solverCfg, idx int, extra ...string) {
 		}
 		return
 	}
-	if o.shortFirst && len(extra) == 0 {
+	if o.shortFirst {
 		c2 := *cfg
 		c2.quickTO, c2.fallback = 4, 4
 		cfg = &c2
@@ -294,6 +294,12 @@ func discharge(o *Obl, cfg *solverCfg, idx int, extra ...string) {
 	if len(conds) == 0 {
 		dischargeOnce(o, cfg, idx, extra...)
 		return
+	}
+	if o.shortFirst {
+		// expected to fail (a recorded finding): every attempt, case splits included, is short
+		cs := *cfg
+		cs.quickTO, cs.fallback = 4, 4
+		cfg = &cs
 	}
 	c1 := *cfg
 	if c1.quickTO > 4 {
